@@ -7,9 +7,11 @@ Correspondence:
     nearest element, k-nearest / radius distance lists).
   * both GNAT variants: *state injection*.  The harness dumps the real (protected) tree after every
     operation; the Lean driver re-reads each dump, evaluates `Node.inv` (the hypothesis `GnatInv` of
-    the pruning theorems) on it, lists its live elements with the model's `list`, and runs the
+    nearestK_exact / nearestR_exact) on it, lists its live elements with the model's `list`, and runs the
     **model's** nearestK / nearestR / nearest code on the dumped tree; the answers must equal what
-    the real code returned on that same tree.
+    the real code returned on that same tree.  Every add / addv / rm / clear is also re-executed by the
+    **model's** operation (Model/NNGnatOps.lean) from the previous dump with the k-centers draws the real
+    operation made; the model's resulting dump must equal the real one token for token.
 Spec oracle (Python, on the implementation's output only, independent of the model): abstract
 multiset, size and list after *every* operation, brute-force distance lists for every query, answers
 are sub-multisets of the current contents, sorted; an independent GnatInv checker on every dump.
@@ -739,14 +741,21 @@ MANIFEST = {
     "category": "proof",
     "design_ref": "DESIGN.md 2.10",
     "text": "Lean 4 theorems over executable models of NearestNeighborsLinear / SqrtApprox (answers equal exhaustive search, "
-            "size/list refine the abstract multiset for every operation sequence) and of the GNAT query code (pruning by "
-            "ranges and radii is sound for every metric on an ordered group under the invariant GnatInv), tied to the real "
-            "templates by lock-step differential runs (Linear, SqrtApprox) and by state injection (the model's queries and the "
-            "executable GnatInv run on dumps of the real GNAT trees after every operation), plus an independent brute-force "
-            "multiset/distance-list oracle on the implementation's own outputs over a parameter grid.",
+            "size/list refine the abstract multiset for every operation sequence) and of both GNAT variants: nearestK / nearestR / "
+            "nearest of the modelled query code (node queue, answer queue, sibling and radius pruning, equal-key rule) return "
+            "exactly the brute-force answer over the live stored copies for every metric on a linearly ordered commutative ring, "
+            "every tree satisfying the executable invariant GnatInv and every child visiting order, and never run out of fuel; "
+            "Node::add preserves GnatInv (given what split must establish). Tied to the real templates by lock-step differential "
+            "runs (Linear, SqrtApprox; GNAT add/split/k-centers/remove/rebuild/clear re-executed by the model from the previous "
+            "dump of the real tree with the recorded k-centers draws, dumps compared token for token) and by state injection (the "
+            "model's queries and the executable GnatInv run on dumps of the real GNAT trees after every operation), plus an "
+            "independent brute-force multiset/distance-list oracle on the implementation's own outputs over a parameter grid.",
     "note": "Trusted: Lean kernel, the three standard axioms, the hand-written model outside what the correspondence explored, "
-            "the harness. GNAT add/split/remove/rebuild preserve GnatInv is checked on dumps of the real tree, not proved. "
-            "Known finding F16: removed_ holds addresses into leaf vectors that reallocate when degree > leaf size.",
-    "technique": "Lean 4 proof (sortedness/permutation of the linear answers, refinement to a multiset, triangle-inequality "
-                 "pruning lemmas under an executable invariant) + differential correspondence with state injection",
+            "the harness. That GNAT split / rebuild establish GnatInv and the multiset abstraction is checked on every dump of the "
+            "real tree and by the lock-step comparison, not proved (split_establishes_inv, rebuild_abs, gnat_size_list_abs are "
+            "stated in Props/C10.lean's header; add_/remove_preserves_inv are _partial). F16 (stale removed_ addresses) is fixed "
+            "in /repo (9cd18415f).",
+    "technique": "Lean 4 proof (multiset loop invariant over the two priority queues, generic in the k-nearest / radius collector; "
+                 "triangle-inequality pruning lemmas under an executable invariant; refinement to a multiset for the linear "
+                 "structures) + lock-step differential correspondence with state injection",
 }
